@@ -4,6 +4,9 @@
 set -euo pipefail
 cd "$(dirname "$0")/.."
 ROOT=$(pwd)
+# one build at a time per checkout
+exec 9>"$ROOT/.build.lock"
+flock 9
 python3 tools/gen_project.py
 cd coq
 # hygiene: nothing that declares an axiom or switches a check off
